@@ -226,12 +226,16 @@ def compare_model(ctx, jm, m_in, m_out):
   return diffs
 
 
-PRELUDE = '''From VF Require Import Base.Prelude Gen.Enums Model.Graph Model.Insts Model.Perform.
+PRELUDE = '''From VF Require Import Base.Prelude Gen.Enums Model.Graph Model.Insts Model.Perform Spec.WFb.
 Open Scope Z_scope.
 Definition run_case (c : model * list ttp) : list Z :=
   let r1 := insts_of_params (fst c) (snd c) in
   let r2 := tis <- r1 ;; transform_graph (fst c) tis in
-  flat (JL [Jres (Jlist J_tinsts) r1; Jres J_model r2]).
+  (* hypotheses of the C01/C02 composition theorems, decided on this input;
+     and the conclusion of C01 on the model's result *)
+  let hyp := forallb wf_sgb (m_subgraphs (fst c)) && uids_okb (fst c) in
+  let concl := match r2 with Ok m' => forallb wf_sgb (m_subgraphs m') | Err _ => true end in
+  flat (JL [Jres (Jlist J_tinsts) r1; Jres J_model r2; JB hyp; JB concl]).
 '''
 
 
@@ -399,11 +403,18 @@ def main():
   results = vlib.run_case_files(files, jobs=int(os.environ.get('VERIF_JOBS', '12')),
                                 timeout=1200)
   mism = []
+  hyp_checked = 0
   for si, idxs in enumerate(shards):
     got = results[f'graph_{si}']
     for k, i in enumerate(idxs):
       lit, ctx, ji, m_in, m_out, desc, mb = cases[i]
-      jr1, jr2 = vlib.unflat(got[k])
+      jr1, jr2, jhyp, jconcl = vlib.unflat(got[k])
+      hyp_checked += 1
+      if not jhyp:
+        mism.append({'interface': 'hypotheses', 'case': i, 'recipe': desc,
+                     'what': 'generated input does not satisfy wf_sgb / uids_okb (hypotheses of the composition theorems)'})
+      if not jconcl:
+        mism.append({'interface': 'T', 'case': i, 'recipe': desc, 'what': 'model result is not well formed (wf_sgb)'})
       # I: instructions
       if jr1[0] != ji[0] or (jr1[0] == 0 and jr1[1] != ji[1]) or (
           jr1[0] == 1 and jr1[1] != ji[1]):
@@ -425,7 +436,7 @@ def main():
       if d:
         mism.append({'interface': 'E', 'case': i, 'recipe': desc, 'diffs': d[:5]})
   out = {
-      'interface': 'I+T+E', 'evaluations': len(cases),
+      'interface': 'I+T+E', 'evaluations': len(cases), 'theorem_hypotheses_checked_on_inputs': hyp_checked,
       'distinct_nontrivial': len(nontrivial),
       'n_mismatches': len(mism), 'mismatches': mism[:10],
       'oracle_violations': dedup(viol), 'distribution': dict(dist),
